@@ -306,6 +306,41 @@ func obstacles(o *hc.Out, bin, scratch string, mk func(string) string) {
 		_ = os.RemoveAll(d)
 	}
 
+	// COMMIT steps that fail because the files were interfered with during the transaction (the program does it
+	// itself through external commands): the failed commit is rolled back and leaves no control file
+	for _, c := range []struct{ name, prog string }{
+		{"temp_removed_before_commit", "UPDATE a SET v = 1; $ rm .a.csv.temp;"},
+		{"temp_removed_two_tables", "UPDATE a SET v = 1; UPDATE b SET w = 'q'; $ rm .b.csv.temp;"},
+		{"table_replaced_by_directory", "UPDATE a SET v = 1; $ rm a.csv; $ mkdir a.csv;"},
+		{"created_table_removed_before_commit", "CREATE TABLE `c.csv` (x); INSERT INTO `c.csv` VALUES (1); UPDATE a SET v = 2; $ rm .a.csv.temp;"},
+		{"temp_removed_then_explicit_commit", "UPDATE a SET v = 1; $ rm .a.csv.temp; COMMIT; SELECT 1 FROM DUAL;"},
+		{"lock_removed_before_commit", "UPDATE a SET v = 1; $ rm .a.csv.lock;"},
+	} {
+		d := mk("sab-" + c.name)
+		r := csvq(bin, d, nil, 0, 0, c.prog)
+		var left []string
+		for nme := range listing(d) {
+			if isControl(nme) {
+				left = append(left, nme)
+			}
+		}
+		sort.Strings(left)
+		rep := map[string]interface{}{"scenario": c.name, "program": c.prog, "rc": r.rc, "output": r.out, "leftover": left}
+		if len(left) > 0 {
+			o.Law("control_files_left_behind", rep)
+		}
+		if r.rc == -2 {
+			o.Law("hang", rep)
+		}
+		if strings.Contains(r.out, "Fatal Error") || strings.Contains(r.out, "panic:") {
+			o.Law("internal_error_on_termination", rep)
+		}
+		o.Eval()
+		o.NonTrivial(fmt.Sprintf("sabotage:%s:%d", c.name, r.rc))
+		o.Count("obstacle:" + c.name)
+		_ = os.RemoveAll(d)
+	}
+
 	// runs whose working directory changes (CHDIR) while an --out file is pending: nothing but the named
 	// output file may appear, and a file of the same name in the new directory is none of the run's business
 	type oc struct{ name, prog string }
